@@ -17,7 +17,8 @@ RULE = ("von Karman variant: nx 2..40 odd and even, n_columns 1..4, pixel scale 
         "column of B) and compared with an independent float64 von Karman covariance at the true pixel positions. "
         "Construction failures with the documented LinAlgError are rejected by construction and counted. Non-trivial: "
         "VK n_columns>=2 and nx>=4; Fried requested != internal size or stencil_length_factor>=2. Distinct = canonical JSON."
-        " Also: before the judged screen a sibling sharing derived quantities (same L0/r0, r0 only, L0 only, all scaled) is built in the same process; screens handed out by .scrn/add_row() are held un-copied and must survive later rows; an unseeded screen's innovations must differ from row to row with NumPy's global generator reset before each.")
+        " Also: before the judged screen a sibling sharing derived quantities (same L0/r0, r0 only, L0 only, all scaled) is built in the same process; screens handed out by .scrn/add_row() are held un-copied and must survive later rows; an unseeded screen's innovations must differ from row to row with NumPy's global generator reset before each."
+        " Sizes and counts also as NumPy integers of any width and signedness.")
 ASSUMPTIONS = ["pixel (i, j) of the working array sits at (i, j) * pixel_scale, the new row at row -1",
                "tolerance = 8 eps cond(Cov(Z,Z)) (1+|A|_inf) relative to B(0): what a backward-stable explicit inverse in double precision leaves (measured 0.15 in these units); L0/pixel up to 1e7",
                "the private attribute _scrn is assigned to set screen content (only private name used)"]
